@@ -1029,3 +1029,238 @@ Proof.
     match goal with |- context [if ?p then _ else _] => destruct p eqn:Ep end; [discriminate|]. intros _.
     apply Qle_bool_true. exact (cleanup_op_full lim now (buckets st) k' b Hf Ep).
 Qed.
+
+(* ================= C19 over whole histories: clients that stay within their own limits ================= *)
+Lemma keys_of_req_cases lim ord ip c k : In k (keys_of lim ord (Req ip c)) -> k = KGlobal \/ k = KIP ip \/ k = KConn c.
+Proof.
+  cbn [keys_of]. intros Hin. apply in_flat_map in Hin. destruct Hin as (l & _ & Hk). destruct l; cbn in Hk.
+  - destruct Hk as [<-|[]]. auto.
+  - destruct Hk as [<-|[]]. auto.
+  - destruct (conn_on lim); [destruct Hk as [<-|[]]; auto|destruct Hk].
+Qed.
+
+Lemma consult_seq_level_same e lim i now : lim_ok lim -> forall ks st tr st' k,
+  inv lim (buckets st) now -> ~ In k ks -> consult_seq e lim i st ks now = (tr, st') ->
+  level lim (buckets st') k now == level lim (buckets st) k now.
+Proof.
+  intros Hok. induction ks as [|k0 r IH]; intros st tr st' k Hi Hnin C.
+  - cbn in C. inversion C; subst. reflexivity.
+  - cbn [consult_seq] in C. destruct (consult e lim i st k0 now) as [a s1] eqn:E.
+    destruct (consult_spec _ _ _ _ _ _ _ _ Hok Hi E) as (Hi1 & _ & _ & Ho).
+    assert (Hne : k <> k0) by (intros ->; apply Hnin; left; reflexivity).
+    destruct a.
+    + destruct (consult_seq e lim i s1 r now) as [u v] eqn:F. inversion C; subst.
+      rewrite (IH s1 u st' k Hi1); [apply Ho; exact Hne| |exact F]. intros Hin. apply Hnin. right. exact Hin.
+    + inversion C; subst. apply Ho. exact Hne.
+Qed.
+Lemma consult_seq_level_lb e lim i now : lim_ok lim -> forall ks st tr st' k,
+  inv lim (buckets st) now -> NoDup ks -> consult_seq e lim i st ks now = (tr, st') ->
+  level lim (buckets st) k now - 1 <= level lim (buckets st') k now.
+Proof.
+  intros Hok. induction ks as [|k0 r IH]; intros st tr st' k Hi Hnd C.
+  - cbn in C. inversion C; subst. lra.
+  - cbn [consult_seq] in C. destruct (consult e lim i st k0 now) as [a s1] eqn:E.
+    destruct (consult_spec _ _ _ _ _ _ _ _ Hok Hi E) as (Hi1 & _ & Hk & Ho).
+    inversion Hnd as [|? ? Hnin Hnd']; subst.
+    destruct (key_eqb_spec k k0) as [->|Hne].
+    + assert (H1 : level lim (buckets st) k0 now - 1 <= level lim (buckets s1) k0 now) by (rewrite Hk; destruct a; lra).
+      destruct a.
+      * destruct (consult_seq e lim i s1 r now) as [u v] eqn:F. inversion C; subst.
+        rewrite (consult_seq_level_same _ _ _ _ Hok _ _ _ _ _ Hi1 Hnin F). exact H1.
+      * inversion C; subst. exact H1.
+    + pose proof (Ho _ Hne) as H1. destruct a.
+      * destruct (consult_seq e lim i s1 r now) as [u v] eqn:F. inversion C; subst.
+        pose proof (IH s1 u st' k Hi1 Hnd' F) as H2. lra.
+      * inversion C; subst. lra.
+Qed.
+
+Lemma step_level_lb e lim ord i st now ev tr st' k : lim_ok lim -> NoDup ord ->
+  inv lim (buckets st) now -> step e lim ord i st now ev = (tr, st') ->
+  level lim (buckets st) k now - 1 <= level lim (buckets st') k now.
+Proof.
+  intros Hok Hnd Hi. destruct ev as [ip c|ip op|c]; cbn [step]; intros C.
+  - exact (consult_seq_level_lb _ _ _ _ Hok _ _ _ _ k Hi (keys_of_nodup lim ord (Req ip c) Hnd) C).
+  - exact (consult_seq_level_lb _ _ _ _ Hok _ _ _ _ k Hi (keys_of_nodup lim ord (Op ip op) Hnd) C).
+  - inversion C; subst. cbn [buckets]. destruct (key_eqb_spec k (KConn c)) as [->|Hne].
+    + unfold level at 2. rewrite find_remove_same. pose proof (level_le_burst lim _ now (KConn c) now Hi). lra.
+    + unfold level. rewrite (find_remove_other _ _ _ Hne). lra.
+Qed.
+Lemma step_level_same e lim ord i st now ev tr st' k : lim_ok lim ->
+  inv lim (buckets st) now -> step e lim ord i st now ev = (tr, st') ->
+  ~ In k (keys_of lim ord ev) -> (forall c, ev = Close c -> k <> KConn c) ->
+  level lim (buckets st') k now == level lim (buckets st) k now.
+Proof.
+  intros Hok Hi C Hnin Hcl. destruct ev as [ip c|ip op|c]; cbn [step] in C.
+  - exact (consult_seq_level_same _ _ _ _ Hok _ _ _ _ k Hi Hnin C).
+  - exact (consult_seq_level_same _ _ _ _ Hok _ _ _ _ k Hi Hnin C).
+  - inversion C; subst. cbn [buckets]. unfold level. rewrite (find_remove_other _ _ _ (Hcl c eq_refl)). reflexivity.
+Qed.
+
+(* a reference bucket of limiter k: its rate and burst, last touched in the past *)
+Definition Rok (lim : limits) (k : key) (R : tb) (t : Q) : Prop :=
+  rate R = rate_of lim k /\ maxT R = burst_of lim k /\ last R <= t /\ 0 <= tokens R.
+Lemma Rok_wf lim k R t : lim_ok lim -> Rok lim k R t -> wf R.
+Proof. intros Hok (Hr & Hm & _ & Ht). destruct (Hok k). unfold wf. rewrite Hr, Hm. repeat split; assumption. Qed.
+Lemma Rok_later lim k R t t' : Rok lim k R t -> t <= t' -> Rok lim k R t'.
+Proof. intros (Hr & Hm & Hl & Ht) Hle. repeat split; try assumption. lra. Qed.
+Lemma Rok_mk lim k t : lim_ok lim -> Rok lim k (mk (rate_of lim k) (burst_of lim k) t) t.
+Proof. intros Hok. destruct (Hok k). unfold Rok; cbn. repeat split; try reflexivity; lra. Qed.
+Lemma Rok_allow lim k R t a R1 : lim_ok lim -> Rok lim k R t -> allow R t = (a, R1) ->
+  Rok lim k R1 t /\ refilled R1 t == refilled R t - (if a then 1 else 0) /\ (a = true -> 1 <= refilled R t).
+Proof.
+  intros Hok HR EA. pose proof (Rok_wf _ _ _ _ Hok HR) as Hwf. destruct HR as (Hr & Hm & Hl & Ht).
+  destruct (allow_spec _ _ _ _ EA) as (Hm1 & Hr1 & Hl1 & Hc).
+  pose proof (allow_wf _ _ _ _ EA Hwf Hl) as Hwf1. pose proof (allow_level _ _ _ _ EA Hwf Hl) as Hlv.
+  split; [|split; [exact Hlv|]].
+  - unfold Rok. rewrite Hm1, Hr1, Hl1. repeat split; try assumption; [lra|apply Hwf1].
+  - intros ->. destruct Hc as [(_ & H & _)|(H & _)]; [exact H|discriminate].
+Qed.
+
+Lemma ge_later lim m k R t t' : lim_ok lim -> inv lim m t -> Rok lim k R t -> t <= t' ->
+  refilled R t <= level lim m k t -> refilled R t' <= level lim m k t'.
+Proof.
+  intros Hok Hi HR Hle Hge. destruct HR as (Hr & Hm & Hl & Ht). destruct (Hok k) as [Hr0 _].
+  rewrite (level_later _ _ _ _ k Hok Hi Hle).
+  rewrite (refilled_later R t t'); [|rewrite Hr; exact Hr0|exact Hle].
+  rewrite Hr, Hm. apply cap_mono. lra.
+Qed.
+
+(* while the address's whole request stream is admitted by its reference bucket, the real per-IP bucket holds at
+   least as many tokens as the reference *)
+Lemma run_from_ref_ip e lim ord ip : lim_ok lim -> NoDup ord -> forall evs i st ok R tprev,
+  times_sorted tprev evs -> inv lim (buckets st) tprev -> Rok lim (KIP ip) R tprev ->
+  (ok = true -> refilled R tprev <= level lim (buckets st) (KIP ip) tprev) ->
+  let st' := snd (run_from e lim ord i st evs) in
+  let r := ref_ip ip ok R evs in
+  Rok lim (KIP ip) (snd r) (end_time tprev evs) /\ inv lim (buckets st') (end_time tprev evs) /\
+  (fst r = true -> refilled (snd r) (end_time tprev evs) <= level lim (buckets st') (KIP ip) (end_time tprev evs)).
+Proof.
+  intros Hok Hnd. induction evs as [|[now ev] r IH]; intros i st ok R tprev Hs Hi HR Hge.
+  - cbn. split; [exact HR|split; [exact Hi|exact Hge]].
+  - destruct Hs as [Hle Hs]. cbn [run_from end_time].
+    destruct (step e lim ord i st now ev) as [tr s1] eqn:E.
+    pose proof (inv_later _ _ _ _ Hi Hle) as Hi0.
+    pose proof (Rok_later _ _ _ _ _ HR Hle) as HR0.
+    assert (Hge0 : ok = true -> refilled R now <= level lim (buckets st) (KIP ip) now)
+      by (intros H; exact (ge_later _ _ _ _ _ _ Hok Hi HR Hle (Hge H))).
+    pose proof (step_inv _ _ _ _ _ _ _ _ _ Hok Hi0 E) as Hi1.
+    pose proof (step_level_lb _ _ _ _ _ _ _ _ _ (KIP ip) Hok Hnd Hi0 E) as Hlb.
+    assert (Hsame : (forall c, ev <> Req ip c) -> level lim (buckets s1) (KIP ip) now == level lim (buckets st) (KIP ip) now).
+    { intros Hnr. apply (step_level_same _ _ _ _ _ _ _ _ _ _ Hok Hi0 E); [|intros; discriminate].
+      destruct ev as [ip' c'|ip' op|c']; cbn [keys_of].
+      - intros Hin. destruct (keys_of_req_cases _ _ _ _ _ Hin) as [H|[H|H]]; try discriminate.
+        inversion H; subst. exact (Hnr c' eq_refl).
+      - intros [H|[]]. discriminate.
+      - intros []. }
+    specialize (IH (S i) s1).
+    destruct (run_from e lim ord (S i) s1 r) as [trs s2] eqn:Er. cbn [snd] in *.
+    destruct ev as [ip' c'|ip' op|c']; cbn [ref_ip].
+    + destruct (N.eqb_spec ip' ip) as [->|Hne].
+      * destruct (allow R now) as [a R1] eqn:EA.
+        destruct (Rok_allow _ _ _ _ _ _ Hok HR0 EA) as (HR1 & Hlv & Ha).
+        apply (IH (ok && a) R1 now Hs Hi1 HR1).
+        intros Hoa. apply andb_true_iff in Hoa. destruct Hoa as [-> ->]. specialize (Hge0 eq_refl). rewrite Hlv. lra.
+      * apply (IH ok R now Hs Hi1 HR0). intros H. rewrite Hsame; [exact (Hge0 H)|]. intros c Hc. inversion Hc; subst. contradiction.
+    + apply (IH ok R now Hs Hi1 HR0). intros H. rewrite Hsame; [exact (Hge0 H)|]. intros; discriminate.
+    + apply (IH ok R now Hs Hi1 HR0). intros H. rewrite Hsame; [exact (Hge0 H)|]. intros; discriminate.
+Qed.
+
+(* the same for a connection id; CleanupConnection restarts both the real and the reference limiter *)
+Lemma run_from_ref_conn e lim ord c : lim_ok lim -> NoDup ord -> forall evs i st ok R tprev,
+  times_sorted tprev evs -> inv lim (buckets st) tprev -> Rok lim (KConn c) R tprev ->
+  (ok = true -> refilled R tprev <= level lim (buckets st) (KConn c) tprev) ->
+  let st' := snd (run_from e lim ord i st evs) in
+  let r := ref_conn lim c ok R evs in
+  Rok lim (KConn c) (snd r) (end_time tprev evs) /\ inv lim (buckets st') (end_time tprev evs) /\
+  (fst r = true -> refilled (snd r) (end_time tprev evs) <= level lim (buckets st') (KConn c) (end_time tprev evs)).
+Proof.
+  intros Hok Hnd. induction evs as [|[now ev] r IH]; intros i st ok R tprev Hs Hi HR Hge.
+  - cbn. split; [exact HR|split; [exact Hi|exact Hge]].
+  - destruct Hs as [Hle Hs]. cbn [run_from end_time].
+    destruct (step e lim ord i st now ev) as [tr s1] eqn:E.
+    pose proof (inv_later _ _ _ _ Hi Hle) as Hi0.
+    pose proof (Rok_later _ _ _ _ _ HR Hle) as HR0.
+    assert (Hge0 : ok = true -> refilled R now <= level lim (buckets st) (KConn c) now)
+      by (intros H; exact (ge_later _ _ _ _ _ _ Hok Hi HR Hle (Hge H))).
+    pose proof (step_inv _ _ _ _ _ _ _ _ _ Hok Hi0 E) as Hi1.
+    pose proof (step_level_lb _ _ _ _ _ _ _ _ _ (KConn c) Hok Hnd Hi0 E) as Hlb.
+    assert (Hsame : (forall ip0, ev <> Req ip0 c) -> ev <> Close c ->
+              level lim (buckets s1) (KConn c) now == level lim (buckets st) (KConn c) now).
+    { intros Hnr Hnc. apply (step_level_same _ _ _ _ _ _ _ _ _ _ Hok Hi0 E).
+      - destruct ev as [ip' c'|ip' op|c']; cbn [keys_of].
+        + intros Hin. destruct (keys_of_req_cases _ _ _ _ _ Hin) as [H|[H|H]]; try discriminate.
+          inversion H; subst. exact (Hnr ip' eq_refl).
+        + intros [H|[]]. discriminate.
+        + intros [].
+      - intros c0 -> Heq. inversion Heq; subst. apply Hnc. reflexivity. }
+    specialize (IH (S i) s1).
+    destruct (run_from e lim ord (S i) s1 r) as [trs s2] eqn:Er. cbn [snd] in *.
+    destruct ev as [ip' c'|ip' op|c']; cbn [ref_conn].
+    + destruct (N.eqb_spec c' c) as [->|Hne].
+      * destruct (allow R now) as [a R1] eqn:EA.
+        destruct (Rok_allow _ _ _ _ _ _ Hok HR0 EA) as (HR1 & Hlv & Ha).
+        apply (IH (ok && a) R1 now Hs Hi1 HR1).
+        intros Hoa. apply andb_true_iff in Hoa. destruct Hoa as [-> ->]. specialize (Hge0 eq_refl). rewrite Hlv. lra.
+      * apply (IH ok R now Hs Hi1 HR0). intros H. rewrite Hsame; [exact (Hge0 H)| |discriminate].
+        intros ip0 Hc. inversion Hc; subst. contradiction.
+    + apply (IH ok R now Hs Hi1 HR0). intros H. rewrite Hsame; [exact (Hge0 H)| |]; intros; discriminate.
+    + destruct (N.eqb_spec c' c) as [->|Hne].
+      * apply (IH true _ now Hs Hi1 (Rok_mk lim (KConn c) now Hok)). intros _.
+        cbn [step] in E. inversion E; subst. cbn [buckets]. unfold level. rewrite find_remove_same.
+        rewrite refilled_mk. lra.
+      * apply (IH ok R now Hs Hi1 HR0). intros H. rewrite Hsame; [exact (Hge0 H)| |]; [intros; discriminate|].
+        intros Hc. inversion Hc; subst. contradiction.
+Qed.
+
+Lemma ref_ip_app ip : forall l1 l2 ok R,
+  ref_ip ip ok R (l1 ++ l2) = ref_ip ip (fst (ref_ip ip ok R l1)) (snd (ref_ip ip ok R l1)) l2.
+Proof.
+  induction l1 as [|[t ev] r IH]; intros l2 ok R; [reflexivity|].
+  cbn [app ref_ip]. destruct ev as [ip' c'|ip' op|c']; try apply IH.
+  destruct (N.eqb ip' ip); [|apply IH]. destruct (allow R t) as [a R1]. apply IH.
+Qed.
+Lemma ref_conn_app lim c : forall l1 l2 ok R,
+  ref_conn lim c ok R (l1 ++ l2) = ref_conn lim c (fst (ref_conn lim c ok R l1)) (snd (ref_conn lim c ok R l1)) l2.
+Proof.
+  induction l1 as [|[t ev] r IH]; intros l2 ok R; [reflexivity|].
+  cbn [app ref_conn]. destruct ev as [ip' c'|ip' op|c']; try apply IH.
+  - destruct (N.eqb c' c); [|apply IH]. destruct (allow R t) as [a R1]. apply IH.
+  - destruct (N.eqb c' c); apply IH.
+Qed.
+
+(* C19 isolation over whole histories: whatever the other clients sent, a client whose own request stream (this
+   request included) conforms to its per-IP and per-connection limits is admitted whenever the admitted traffic
+   leaves a token in the global budget *)
+Lemma C19_isolation_history_lemma e lim ord t0 evs i now ip c : lim_ok lim -> global_last ord = true -> NoDup ord ->
+  times_sorted t0 evs -> end_time t0 evs <= now ->
+  let hist := evs ++ [(now, Req ip c)] in
+  let trs := fst (run e lim ord t0 evs) in
+  let st := snd (run e lim ord t0 evs) in
+  let G := snd (TokenBucket.run (mk (rate_of lim KGlobal) (burst_of lim KGlobal) t0) (admitted_req_times evs trs)) in
+  fst (ref_ip ip true (mk (rate_of lim (KIP ip)) (burst_of lim (KIP ip)) t0) hist) = true ->
+  (conn_on lim = true ->
+   fst (ref_conn lim c true (mk (rate_of lim (KConn c)) (burst_of lim (KConn c)) t0) hist) = true) ->
+  1 <= tokens_at G now ->
+  admitted (fst (step e lim ord i st now (Req ip c))) = true.
+Proof.
+  intros Hok Hgl Hnd Hs Hle. cbn zeta. intros Hip Hconn HG.
+  apply (C19_isolation_lemma e lim ord t0 evs i now ip c Hok Hgl Hnd Hs Hle); [| |exact HG].
+  - rewrite ref_ip_app in Hip. unfold run.
+    destruct (run_from_ref_ip e lim ord ip Hok Hnd evs O (init lim t0) true _ t0 Hs (inv_init _ _ Hok)
+                (Rok_mk lim (KIP ip) t0 Hok)) as (HR & Hi & Hge).
+    { intros _. rewrite refilled_mk. unfold level, init. cbn [buckets find key_eqb]. lra. }
+    destruct (ref_ip ip true (mk (rate_of lim (KIP ip)) (burst_of lim (KIP ip)) t0) evs) as [ok1 R1]. cbn [fst snd] in *.
+    cbn [ref_ip] in Hip. rewrite N.eqb_refl in Hip. destruct (allow R1 now) as [a R2] eqn:EA. cbn [fst] in Hip.
+    apply andb_true_iff in Hip. destruct Hip as [-> ->].
+    destruct (Rok_allow _ _ _ _ _ _ Hok (Rok_later _ _ _ _ _ HR Hle) EA) as (_ & _ & Ha).
+    pose proof (ge_later _ _ _ _ _ _ Hok Hi HR Hle (Hge eq_refl)) as H1. specialize (Ha eq_refl). lra.
+  - intros Hon. specialize (Hconn Hon). rewrite ref_conn_app in Hconn. unfold run.
+    destruct (run_from_ref_conn e lim ord c Hok Hnd evs O (init lim t0) true _ t0 Hs (inv_init _ _ Hok)
+                (Rok_mk lim (KConn c) t0 Hok)) as (HR & Hi & Hge).
+    { intros _. rewrite refilled_mk. unfold level, init. cbn [buckets find key_eqb]. lra. }
+    destruct (ref_conn lim c true (mk (rate_of lim (KConn c)) (burst_of lim (KConn c)) t0) evs) as [ok1 R1]. cbn [fst snd] in *.
+    cbn [ref_conn] in Hconn. rewrite N.eqb_refl in Hconn. destruct (allow R1 now) as [a R2] eqn:EA. cbn [fst] in Hconn.
+    apply andb_true_iff in Hconn. destruct Hconn as [-> ->].
+    destruct (Rok_allow _ _ _ _ _ _ Hok (Rok_later _ _ _ _ _ HR Hle) EA) as (_ & _ & Ha).
+    pose proof (ge_later _ _ _ _ _ _ Hok Hi HR Hle (Hge eq_refl)) as H1. specialize (Ha eq_refl). lra.
+Qed.
